@@ -757,6 +757,9 @@ func verifStubTarRead(t *tar.Reader, p []byte) (int, error) {
 
 //verif:stub encoding/json.Marshal
 func verifStubJSONMarshal(v any) ([]byte, error) {
+	if b, ok := c09JSONMarshal(v); ok {
+		return b, nil
+	}
 	switch x := v.(type) {
 	case *UploadOptions:
 		b := []byte("O")
@@ -784,6 +787,9 @@ func verifStubJSONMarshal(v any) ([]byte, error) {
 
 //verif:stub encoding/json.Unmarshal
 func verifStubJSONUnmarshal(data []byte, v any) error {
+	if handled, err := c09JSONUnmarshal(data, v); handled {
+		return err
+	}
 	o, ok := v.(*UploadOptions)
 	if !ok || len(data) < 3 || data[0] != 'O' {
 		return errors.New("json: cannot unmarshal")
